@@ -32,6 +32,8 @@ type Program struct {
 	specRec   map[string]bool          // recursive spec functions
 	ifaceImpl map[string][]string      // iface method "JsonNode.patch" -> impl keys
 	Stale     []string
+	Sweep     []string          // properties for which every function of the package is under check (safety sweep)
+	NoSweep   map[string]string // function key -> reason it is excluded from sweeps
 }
 
 // Contract is one //@ contract block.
@@ -74,6 +76,10 @@ type LoopSpec struct {
 var reDirective = regexp.MustCompile(`^\s*//\s?@\s?(.*)$`)
 
 func parseContracts(path string, into map[string]*Contract) error {
+	return parseContractsP(path, into, nil)
+}
+
+func parseContractsP(path string, into map[string]*Contract, p *Program) error {
 	data, err := os.ReadFile(path)
 	if err != nil {
 		return err
@@ -98,6 +104,20 @@ func parseContracts(path string, into map[string]*Contract) error {
 			}
 		}
 		switch word {
+		case "sweep":
+			if p != nil {
+				p.Sweep = append(p.Sweep, strings.Fields(rest)...)
+			}
+			continue
+		case "nosweep":
+			if p != nil {
+				k, reason := splitWord(rest)
+				if p.NoSweep == nil {
+					p.NoSweep = map[string]string{}
+				}
+				p.NoSweep[k] = reason
+			}
+			continue
 		case "contract":
 			cur = &Contract{Key: rest, Loops: map[string]*LoopSpec{}, Line: ln + 1, File: path}
 			if _, dup := into[rest]; dup {
@@ -282,7 +302,7 @@ func loadProgram(dir string, tags string) (*Program, error) {
 	matches, _ := filepath.Glob(filepath.Join(dir, "verif_contracts*.go"))
 	sort.Strings(matches)
 	for _, m := range matches {
-		if err := parseContracts(m, p.Contracts); err != nil {
+		if err := parseContractsP(m, p.Contracts, p); err != nil {
 			return nil, err
 		}
 	}
@@ -440,6 +460,9 @@ func (p *Program) sortOf1(t types.Type) Sort {
 		}
 		return p.U.SliceOf(p.sortOf(ut.Elem()))
 	case *types.Map:
+		if ki, ok := ut.Key().Underlying().(*types.Interface); ok && ki.NumMethods() == 0 && p.sortOf(ut.Elem()) == SAny {
+			return "MapYaml"
+		}
 		return p.U.MapOf(p.sortOf(ut.Key()), p.sortOf(ut.Elem()))
 	case *types.Struct:
 		name := namedName(t)
